@@ -274,6 +274,10 @@ func (ex *Exec) havocLike(prefix string, v Value, t types.Type, st *State) Value
 		return ex.ts.Fresh(prefix, x.Sort)
 	case *StructV, *ArrayV:
 		return ex.havocValue(prefix, t, st)
+	case *HeapRefV:
+		return &HeapRefV{Ref: ex.ts.Fresh(prefix, refSort), Cls: x.Cls}
+	case *MapV:
+		return &MapV{Val: ex.ts.Fresh(prefix, x.Val.Sort), T: x.T}
 	}
 	unsupported("havoc of %T (%s)", v, prefix)
 	return nil
